@@ -50,6 +50,17 @@ SIG = {
                     [('data', 'List Int'), ('frombits', 'Int'), ('tobits', 'Int'), ('pad', 'Bool')], 'Option (List Int)'),
     # script assembly: a token is an opcode name / a hex string (modelled by the bytes it denotes) / an int
     'script_to_bytes': ('script.py', 'Script.to_bytes', [('OPS', 'List (String × Bytes)'), ('self_script', 'List Py.PyTok')], 'Bytes'),
+    # transaction serialisation: objects are records of their fields (PyTxIn, PyTxOut, PyWit)
+    'txwitness_to_bytes': ('transactions.py', 'TxWitnessInput.to_bytes', [('self_stack', 'List Bytes')], 'Bytes'),
+    'txoutput_to_bytes': ('transactions.py', 'TxOutput.to_bytes',
+                          [('OPS', 'List (String × Bytes)'), ('self_amount', 'Int'), ('self_script_pubkey', 'List Py.PyTok')], 'Bytes'),
+    'txinput_to_bytes': ('transactions.py', 'TxInput.to_bytes',
+                         [('OPS', 'List (String × Bytes)'), ('self_txid', 'Bytes'), ('self_txout_index', 'Int'),
+                          ('self_script_sig', 'List Py.PyTok'), ('self_sequence', 'Bytes')], 'Bytes'),
+    'transaction_to_bytes': ('transactions.py', 'Transaction.to_bytes',
+                             [('OPS', 'List (String × Bytes)'), ('self_version', 'Bytes'), ('self_inputs', 'List Py.PyTxIn'),
+                              ('self_outputs', 'List Py.PyTxOut'), ('self_witnesses', 'List Py.PyWit'), ('self_locktime', 'Bytes'),
+                              ('has_segwit', 'Bool')], 'Bytes'),
     # the rest of the bundled RIPEMD-160
     'rmd_compress': ('ripemd160.py', 'compress',
                      [('h0', 'Int'), ('h1', 'Int'), ('h2', 'Int'), ('h3', 'Int'), ('h4', 'Int'), ('block', 'Bytes')],
@@ -78,6 +89,10 @@ SCH_CALLS = {'tagged_hash': ('schnorr_tagged_hash', True), 'bytes_from_int': ('s
              'has_even_y': ('schnorr_has_even_y', False)}
 SCH_BYTES = {'tagged_hash', 'bytes_from_int', 'bytes_from_point', 'xor_bytes'}
 POINT = 'Option (Int × Int)'
+# record types: field order of the call `<obj>.to_bytes()` on a loop variable
+RECORDS = {'List Py.PyTxIn': ('txinput_to_bytes', True, ['txid', 'txout_index', 'script_sig', 'sequence']),
+           'List Py.PyTxOut': ('txoutput_to_bytes', True, ['amount', 'script_pubkey']),
+           'List Py.PyWit': ('txwitness_to_bytes', False, ['stack'])}
 # module-level names visible to the functions of one file only (filled from the evaluated module)
 FILE_CONSTS = {}
 # `while` loops are translated with an explicit iteration bound (a Lean term over the variables in scope at loop
@@ -115,7 +130,7 @@ def blit(b):
 class Tr:
     def __init__(s, name, file=None):
         s.name = name; s.tmp = 0; s.pre = []; s.declared = set(); s.points = set(); s.tuple5 = set()
-        s.toklists = set(); s.tokvars = set(); s.optables = set()
+        s.toklists = set(); s.tokvars = set(); s.optables = set(); s.byteslists = set(); s.reclists = {}; s.recvars = {}
         s.fconsts = FILE_CONSTS.get(file, {})
 
     def fail(s, n, why):
@@ -141,6 +156,8 @@ class Tr:
             return n.id
         if isinstance(n, ast.Attribute) and isinstance(n.value, ast.Name) and n.value.id == 'self':
             return 'self_' + n.attr
+        if isinstance(n, ast.Attribute) and isinstance(n.value, ast.Name) and n.value.id in s.recvars and n.attr in s.recvars[n.value.id][2]:
+            return f'{n.value.id}.{n.attr}'
         if isinstance(n, ast.Attribute) and isinstance(n.value, ast.Name) and f'{n.value.id}.{n.attr}' in CONSTS:
             return CONSTS[f'{n.value.id}.{n.attr}']
         if isinstance(n, ast.List):
@@ -169,9 +186,15 @@ class Tr:
             return f'(- {s.e(n.operand)})'
         if isinstance(n, ast.UnaryOp) and isinstance(n.op, ast.Invert):
             return f'(Py.lnot {s.e(n.operand)})'
+        if (isinstance(n, ast.BinOp) and isinstance(n.op, ast.Mult) and isinstance(n.left, ast.Constant) and isinstance(n.left.value, int)
+                and n.left.value % 2 == 0 and isinstance(n.right, ast.Constant) and n.right.value == '0'):
+            return f'(Py.bytesRepeat [0x00] ({n.left.value // 2} : Int))'       # an even number of "0" hex digits
         if isinstance(n, ast.BinOp):
             a, b = s.e(n.left), s.e(n.right)
             op = {ast.Add: '+', ast.Sub: '-', ast.Mult: '*', ast.FloorDiv: '/', ast.Mod: '%'}.get(type(n.op))
+            if (op == '*' and isinstance(n.left, ast.Constant) and isinstance(n.left.value, int) and n.left.value % 2 == 0
+                    and isinstance(n.right, ast.Constant) and n.right.value == '0'):
+                return f'(Py.bytesRepeat [0x00] ({n.left.value // 2} : Int))'       # an even number of "0" hex digits
             if op == '*' and isinstance(n.left, ast.Constant) and isinstance(n.left.value, bytes):
                 return f'(Py.bytesRepeat {a} {b})'
             if op == '+' and (s.isbytes(n.left) or s.isbytes(n.right)): return f'({a} ++ {b})'
@@ -218,6 +241,12 @@ class Tr:
                                 else f'(if {acc} then pure true else {rhs})')
             return acc if acc.startswith('(') or acc.startswith('t') else f'({acc})'
         if isinstance(n, ast.UnaryOp) and isinstance(n.op, ast.Not): return f'(!{s.cond(n.operand)})'
+        if (isinstance(n, ast.Subscript) and isinstance(n.value, ast.Attribute) and n.value.attr == 'script'
+                and isinstance(n.value.value, ast.Attribute) and isinstance(n.value.value.value, ast.Name) and n.value.value.value.id == 'self'
+                and 'self_' + n.value.value.attr in s.toklists and isinstance(n.slice, ast.Constant) and isinstance(n.slice.value, int)):
+            # self.script_sig.script[k] as hex data (it only flows into h_to_b)
+            t = s.eff(f'Py.tokIndex self_{n.value.value.attr} ({n.slice.value} : Int)')
+            return s.eff(f'Py.tokData {t}')
         if isinstance(n, ast.Subscript) and isinstance(n.value, ast.Name) and n.value.id == 'OP_CODES' and 'OPS' in s.optables:
             k = n.slice
             if isinstance(k, ast.Name) and k.id in s.tokvars: return s.eff(f'Py.tokLookup OPS {k.id}')
@@ -251,7 +280,8 @@ class Tr:
         """the iterable of a for loop / comprehension as a Lean list"""
         if isinstance(n, ast.Call) and isinstance(n.func, ast.Name) and n.func.id == 'range' and len(n.args) == 1:
             return f'(Py.range {s.e(n.args[0])})'
-        if isinstance(n, ast.Attribute) and isinstance(n.value, ast.Name) and n.value.id == 'self' and 'self_' + n.attr in s.toklists:
+        if isinstance(n, ast.Attribute) and isinstance(n.value, ast.Name) and n.value.id == 'self' and \
+                ('self_' + n.attr in s.toklists or 'self_' + n.attr in s.byteslists or 'self_' + n.attr in s.reclists):
             return 'self_' + n.attr
         if isinstance(n, ast.Name) and (n.id in s.intlists or n.id in s.bytesvars or n.id in s.charlists):
             if n.id in s.bytesvars: s.fail(n, 'iteration over bytes')
@@ -271,6 +301,7 @@ class Tr:
         """'bytes' | 'ints' | 'chars' | None for the value of an expression"""
         if isinstance(n, ast.Constant): return 'bytes' if isinstance(n.value, bytes) else None
         if isinstance(n, (ast.List, ast.ListComp)): return 'ints'
+        if isinstance(n, ast.Attribute) and isinstance(n.value, ast.Name) and n.value.id == 'self' and 'self_' + n.attr in s.bytesvars: return 'bytes'
         if isinstance(n, ast.Name):
             if n.id in s.intlists: return 'ints'
             if n.id in s.charlists: return 'chars'
@@ -291,6 +322,7 @@ class Tr:
         """is the value a sequence (bytes or list), i.e. does `+` mean concatenation"""
         if isinstance(n, ast.Constant): return isinstance(n.value, bytes)
         if isinstance(n, (ast.List, ast.ListComp)): return True
+        if isinstance(n, ast.Attribute) and isinstance(n.value, ast.Name) and n.value.id == 'self': return 'self_' + n.attr in s.bytesvars
         if isinstance(n, ast.Name):
             return (n.id in s.bytesvars or n.id in s.intlists or n.id in s.charlists
                     or (n.id not in s.declared and CONSTS.get(n.id, '').startswith('[')))
@@ -338,6 +370,11 @@ class Tr:
                 s.fail(n, 'bytes(generator)')
             if f.id in POINT_RET and 'p' in s.fconsts: return s.eff(f'{POINT_RET[f.id]} ' + ' '.join(s.e(a) for a in args))
             if f.id == 'len':
+                a0 = args[0]
+                if isinstance(a0, ast.Attribute) and isinstance(a0.value, ast.Name) and (
+                        (a0.value.id == 'self' and ('self_' + a0.attr in s.reclists or 'self_' + a0.attr in s.byteslists))
+                        or (a0.value.id in s.recvars and a0.attr == 'stack')):
+                    return f'((List.length {s.e(a0)} : Nat) : Int)'
                 if s.kind(args[0]) in ('ints', 'chars'): return f'((List.length {s.e(args[0])} : Nat) : Int)'
                 return f'(Py.len {s.e(args[0])})'
             if f.id == 'ord' and len(args) == 1: return f'(Py.ord {s.e(args[0])})'
@@ -375,6 +412,12 @@ class Tr:
                     import copy
                     parts.append(s.e(Sub().visit(copy.deepcopy(args[0].elt))))
                 return '(' + ' ++ '.join(parts) + ')'
+            if f.attr == 'to_bytes' and not args and isinstance(f.value, ast.Attribute) and isinstance(f.value.value, ast.Name) \
+                    and f.value.value.id == 'self' and 'self_' + f.value.attr in s.toklists:
+                return s.eff(f'script_to_bytes OPS self_{f.value.attr}')            # self.script_sig.to_bytes()
+            if f.attr == 'to_bytes' and not args and isinstance(f.value, ast.Name) and f.value.id in s.recvars:
+                fn_, ops, fields = s.recvars[f.value.id]
+                return s.eff(f'{fn_} ' + ('OPS ' if ops else '') + ' '.join(f'{f.value.id}.{x}' for x in fields))
             if (isinstance(f.value, ast.Name) and f.value.id == 'self' and f.attr == '_op_push_data' and len(args) == 1
                     and isinstance(args[0], ast.Name) and args[0].id in s.tokvars):
                 d = s.eff(f'Py.tokData {args[0].id}')        # h_to_b(token): raises for a string that is not hex
@@ -473,6 +516,8 @@ class Tr:
                 return pre + head + s.block(st.body, ind + '  ')
             it = s.iter(st.iter); pre = s.flush(ind)
             if it in s.toklists: s.tokvars.add(v)
+            if it in s.byteslists: s.bytesvars.add(v)
+            if it in s.reclists: s.recvars[v] = s.reclists[it]
             return pre + [f'{ind}for {v} in {it} do'] + s.block(st.body, ind + '  ')
         if isinstance(st, ast.While) and not st.orelse:
             if s.name not in WHILE_FUEL: s.fail(st, 'while loop without a registered iteration bound')
@@ -528,6 +573,8 @@ class Tr:
         s.declared = {p for p, _ in params}; s.selfalias = set()
         s.points = {p for p, t in params if t == 'Point'}
         s.toklists = {p for p, t in params if t == 'List Py.PyTok'}; s.tokvars = set()
+        s.byteslists = {p for p, t in params if t == 'List Bytes'}
+        s.reclists = {p: RECORDS[t] for p, t in params if t in RECORDS}; s.recvars = {}
         s.optables = {p for p, t in params if t == 'List (String × Bytes)'}
         params = [(p, POINT if t == 'Point' else t) for p, t in params]
         if ret == 'Point': ret = POINT
